@@ -10,26 +10,51 @@ atomic shared-state steps; this ties the library to that model):
   * free-running stress: 6 threads, tiny switch interval, same comparison.
 Trees: DSL-built dumps, parsed schemas, model classes; focused families for defaults (incl. first
 use), additional / pattern properties with nested validation, tuple items, compositions; and one
-family outside the theorem's hypothesis (one Property object placed under two names)."""
+family outside the theorem's hypothesis (one Property object placed under two names).
+Further input families: numeric keywords over the whole magnitude ladder (arithmetic whose outcome could depend on per-thread
+interpreter settings), `contains` scans with different answers in flight at once, model classes whose declared properties hold
+arrays.
+Histories: the concurrent calls need not be the first thing that happens to the library.  A scenario may carry a pre-history -
+calls made one after the other before the threads start (warm caches), use of the documented extension points (a new Validator
+subclass declared, a format checker registered) - applied identically before every run alone and before every concurrent run.
+State-directed schedules: each thread's run alone is watched for steps that change state other threads can see (everything
+reachable from the tree plus the library's module-level variables, snapshots taken around lines that can store into existing
+objects).  When there are such steps, schedules suspend a thread right after its j-th write while another thread is in the
+middle of a call of its own (three shapes, j and the resumption enumerated); the interleaving found is reported as a plain
+(thread, lines) schedule and re-run under the plain scheduler before it counts."""
+import ast
+import gc
+import os
 import random
 import sys
 import threading
+import types
+import weakref
 
 from statham.schema.elements import Array, Element, Object, String
 from statham.schema.property import Property
+from statham.schema.validation.base import Validator
+from statham.schema.validation.format import format_checker
 
-from harness import core, dsl, sched
+from harness import core, dsl, sched, statediff
 from harness.framework import Outcome
 from harness.gen import SchemaGen, ValueGen
 from harness.props.c08 import dump_to_schema
 
 ID = "C14"
+# a library change that takes locks can leave the controlled scheduler waiting for a thread that will never move: the run is
+# then cut off by the framework watchdog and reported (no-failing-input-found); C14 asks for a shorter limit than the default
+RUN_LIMIT_S = {"quick": 600, "thorough": 7200}
 TIE_MODULES = ["StathamModel.Tie"]
 ASSUMPTIONS = ["PARTIAL: CPython's real preemption granularity (bytecode level, C-level atomicity, the GIL) is not modelled; the controlled scheduler "
                "switches at library line boundaries, the stress runs let the interpreter switch freely",
                "threads only validate (no reconfiguration while calls are in flight)"]
-N_SCEN = {"quick": 60, "thorough": 400}
+N_SCEN = {"quick": 72, "thorough": 480}
 N_SCHED = {"quick": 10, "thorough": 25}
+N_DIRECTED = {"quick": 32, "thorough": 120}
+_OLD = ["dump", "class", "defaults", "additional", "items", "parsed", "defaults", "additional", "deep", "formats"]
+_NEW = ["numeric", "contains", "model-arrays"]
+FAMILIES = _OLD + _NEW + _OLD + _NEW + _OLD      # 36 scenarios: 3 (6 for the doubled ones) of each older family, 2 of each newer one
 
 
 def enc(v):
@@ -115,6 +140,512 @@ def fam_deep(rng):
     return dump, [nest(d, rng.choice([1, "x", None])) for d in depths]
 
 
+def _digits(rng, n):
+    return rng.choice([1, -1]) * int(str(rng.randint(1, 9)) + "".join(rng.choice("0123456789") for _ in range(n - 1)))
+
+
+def fam_numeric(rng):
+    """numeric keywords (float and integer multipleOf, bounds) met by numbers from the whole magnitude ladder: integers of 1 to
+    320 digits, floats from denormal to 1e300, exact multiples and near misses.  Arithmetic on such numbers may go through
+    interpreter facilities whose settings are per thread or per process (decimal contexts, int<->str limits, float overflow)."""
+    mult = rng.choice([2.5, 0.1, 0.5, 1.5, 0.75, 1e-3, 2.5e-7, 1e10, 3, 7, 10 ** 20])
+    kw = {"multipleOf": core.enc_num(mult)}
+    if rng.random() < 0.4:
+        kw[rng.choice(["minimum", "exclusiveMinimum"])] = core.enc_num(rng.choice([-(10 ** 40), -1e300, 0, -2.5]))
+    if rng.random() < 0.3:
+        kw[rng.choice(["maximum", "exclusiveMaximum"])] = core.enc_num(rng.choice([10 ** 45, 1e300, 10 ** 330]))
+    leaf = {"cls": rng.choice(["Number", "Element", "Integer"] if isinstance(mult, int) else ["Number", "Element"]), "kw": kw}
+    shape = rng.randrange(3)
+    nums = []
+    for _ in range(7):
+        k = rng.random()
+        if k < 0.5:
+            nums.append(_digits(rng, rng.choice([1, 3, 9, 16, 17, 20, 28, 29, 30, 32, 40, 60, 320])))
+        elif k < 0.7:
+            nums.append(rng.choice([1, 3, 7, 9]) * rng.random() * 10.0 ** rng.choice([-320, -30, -9, 0, 9, 15, 17, 22, 30, 300]))
+        elif k < 0.85:
+            q = _digits(rng, rng.choice([1, 5, 18, 30, 45]))
+            nums.append(q * mult if isinstance(mult, int) or abs(q) < 10 ** 300 else q)
+        else:
+            nums.append(rng.choice([0, 0.0, -0.0, 5, 7.5, 0.3, 10 ** 30, 1e30, 2 ** 1024, 5e-324]))
+    nums = [x for x in nums if not (isinstance(x, float) and (x != x or x in (float("inf"), float("-inf"))))]
+    if shape == 0:
+        return leaf, nums
+    if shape == 1:
+        dump = {"cls": "Element", "kw": {"hasProps": True}, "props": [[{"name": "amount", "source": "amount"}, leaf],
+                                                                        [{"name": "unit", "source": "unit"}, {"cls": "String", "kw": {}}]]}
+        return dump, [{"amount": x, "unit": "u"} for x in nums]
+    dump = {"cls": "Array", "kw": {"itemsKind": "single"}, "items": [leaf]}
+    return dump, [[x] for x in nums[:4]] + [nums[4:]]
+
+
+def fam_contains(rng):
+    """`contains` (alone and beside items / minItems / uniqueItems) on arrays whose only matching item sits first, last, in the
+    middle or nowhere: several scans of one element are in flight at once and have different answers"""
+    sub, hit, miss = rng.choice([
+        ({"cls": "Integer", "kw": {"minimum": {"i": "5"}}}, [5, 9, 100], [1, 2, "s", None, 4, 3.5]),
+        ({"cls": "String", "kw": {"pattern": "^a"}}, ["a", "ab"], ["b", "", 1, "ba", None, []]),
+        ({"cls": "Element", "kw": {"hasProps": True, "required": ["k"]}, "props": [[{"name": "k", "source": "k"}, {"cls": "Integer", "kw": {}}]]},
+         [{"k": 1}, {"k": 2, "z": 0}], [{}, {"k": "no"}, 1, "k", {"z": 1}]),
+        ({"cls": "String", "kw": {"format": "date-time"}}, ["2021-03-04T10:00:00Z"], ["not a date", 3, "", None]),
+        ({"cls": "Element", "kw": {"const": core.enc_val([1])}}, [[1]], [[2], 1, [1, 1], [], [True]]),
+    ])
+    kw = {}
+    arr = {"cls": rng.choice(["Array", "Element"]), "contains": sub}
+    if rng.random() < 0.3:
+        kw["itemsKind"] = "single"
+        arr["items"] = [{"cls": "Element", "kw": {}}]
+    if rng.random() < 0.3:
+        kw["minItems"] = {"i": "1"}
+    if rng.random() < 0.2:
+        kw["uniqueItems"] = True
+    arr["kw"] = kw
+    vals = []
+    for _ in range(5):
+        n = rng.choice([1, 2, 3, 5, 8])
+        row = [rng.choice(miss) for _ in range(n)]
+        where = rng.choice(["none", "none", "first", "last", "middle", "two"])
+        if where == "first":
+            row[0] = rng.choice(hit)
+        elif where == "last":
+            row[-1] = rng.choice(hit)
+        elif where == "middle":
+            row[n // 2] = rng.choice(hit)
+        elif where == "two":
+            row[0] = rng.choice(hit)
+            row[-1] = rng.choice(hit)
+        vals.append(row)
+    shape = rng.randrange(4)
+    if shape == 0:
+        return arr, vals
+    if shape == 1:
+        return {"cls": "Array", "kw": {"itemsKind": "single"}, "items": [arr]}, [[v] for v in vals[:3]] + [vals[3:]]
+    key = [{"name": "rows", "source": "rows"}, arr]
+    other = [{"name": "id", "source": "id"}, {"cls": "String", "kw": {}}]
+    if shape == 2:
+        return {"cls": "Element", "kw": {"hasProps": True}, "props": [other, key]}, [{"id": "i%d" % i, "rows": v} for i, v in enumerate(vals)]
+    return {"cls": "Object", "name": "Sheet", "kw": {"hasProps": True}, "props": [key, other]}, [{"id": "i%d" % i, "rows": v} for i, v in enumerate(vals)]
+
+
+def fam_model_arrays(rng):
+    """model classes (and anonymous objects) whose declared properties hold arrays - of scalars, of arrays, of nested models -
+    before and after scalar properties; documents with empty, short and long arrays, valid and with one bad item"""
+    item = {"cls": "Object", "name": "Entry", "kw": {"hasProps": True},
+            "props": [[{"name": "id", "required": True, "source": "id"}, {"cls": "String", "kw": {"minLength": {"i": "1"}}}],
+                      [{"name": "marks", "source": "marks"}, {"cls": "Array", "kw": {"itemsKind": "single"}, "items": [{"cls": "Integer", "kw": {}}]}]]}
+    cands = [
+        ("tags", {"cls": "Array", "kw": {"itemsKind": "single"}, "items": [{"cls": "String", "kw": {"minLength": {"i": "1"}}}]},
+         lambda: [rng.choice(["a", "bb", "ccc", "", 7]) if rng.random() < 0.15 else rng.choice(["a", "bb", "ccc"]) for _ in range(rng.choice([0, 1, 2, 3, 5]))]),
+        ("grid", {"cls": "Array", "kw": {"itemsKind": "single"}, "items": [{"cls": "Array", "kw": {"itemsKind": "single"}, "items": [{"cls": "Integer", "kw": {}}]}]},
+         lambda: [[rng.randint(0, 9) for _ in range(rng.randint(0, 3))] for _ in range(rng.choice([0, 1, 2, 3]))]),
+        ("entries", {"cls": "Array", "kw": {"itemsKind": "single"}, "items": [item]},
+         lambda: [{"id": "e%d" % i, **({"marks": [i, i + 1]} if rng.random() < 0.6 else {})} for i in range(rng.choice([0, 1, 2, 3]))]),
+        ("pair", {"cls": "Array", "kw": {"itemsKind": "tuple"}, "items": [{"cls": "String", "kw": {}}, {"cls": "Integer", "kw": {}}]},
+         lambda: rng.choice([["x", 1], ["y"], [], ["z", 2, None]])),
+    ]
+    scalars = [("id", {"cls": "String", "kw": {"minLength": {"i": "1"}}}, lambda: rng.choice(["d1", "d2", "doc"])),
+               ("rank", {"cls": "Integer", "kw": {"default": {"i": "0"}}}, lambda: rng.randint(1, 5)),
+               ("note", {"cls": "String", "kw": {}}, lambda: rng.choice(["", "n"]))]
+    chosen = rng.sample(cands, rng.choice([1, 2, 2, 3])) + rng.sample(scalars, rng.choice([1, 2, 3]))
+    rng.shuffle(chosen)
+    props = [[{"name": n, "source": n}, d] for n, d, _ in chosen]
+    cls = rng.random() < 0.65
+    dump = {"cls": "Object" if cls else "Element", "kw": {"hasProps": True}, "props": props}
+    if cls:
+        dump["name"] = "Doc"
+    vals = []
+    for _ in range(4):
+        doc = {}
+        for n, _d, mk in chosen:
+            if rng.random() < 0.85:
+                doc[n] = mk()
+        vals.append(doc)
+    return dump, vals
+
+
+# ----------------------------------------------------------------------------- pre-histories
+
+HISTORY_OPS = ["warm-up", "declare-validator", "register-format"]
+_HIST = {"n": 0, "classes": [], "formats": []}
+
+
+def gen_history(rng, vals):
+    """what happened to the library before the threads start: calls made one after the other (caches are warm), the documented
+    extension points used (a Validator subclass for a keyword no element carries, a checker for a format no element names:
+    neither changes any verdict)"""
+    ops = []
+    for kind in rng.sample(HISTORY_OPS, rng.choice([1, 1, 2, 3])):
+        if kind == "warm-up":
+            ops.append({"op": kind, "values": [enc(v) for v in rng.sample(vals, min(len(vals), rng.choice([1, 2])))]})
+        else:
+            ops.append({"op": kind})
+    return ops
+
+
+def dec_arg(v):
+    return core.NP if isinstance(v, dict) and "np" in v else dsl.dec_val(v)
+
+
+def apply_history(history, tree):
+    for op in history or []:
+        _HIST["n"] += 1
+        n = _HIST["n"]
+        if op["op"] == "declare-validator":
+            _HIST["classes"].append(type("HarnessKeyword%d" % n, (Validator,), {"keywords": ("x-harness-keyword-%d" % n,), "message": "unused"}))
+        elif op["op"] == "register-format":
+            name = "x-harness-format-%d" % n
+            format_checker.register(name)(lambda value: True)
+            _HIST["formats"].append(name)
+        elif op["op"] == "warm-up":
+            for v in op["values"]:
+                core.real_call(tree, dec_arg(v))
+
+
+class _Retired:
+    """what a type declared by a history becomes if the library still holds it after the scenario: not a Validator any more, and
+    inert for whoever still iterates over it"""
+    keywords = ()
+
+    @classmethod
+    def from_element(cls, _element):
+        return None
+
+
+def cleanup_history(final=False):
+    """forget what the histories declared (the classes go away with the next collection).  At the end of a scenario (`final`)
+    types that are still alive - the library kept a reference - are taken out of the Validator hierarchy, so that they do not
+    pile up over the run."""
+    if _HIST["classes"] or _HIST["formats"]:
+        for name in _HIST["formats"]:
+            format_checker._callable_register.pop(name, None)  # pylint: disable=protected-access
+        _HIST["formats"].clear()
+        _HIST["weak"] = [r for r in _HIST.get("weak", []) if r() is not None] + [weakref.ref(c) for c in _HIST["classes"]]
+        _HIST["classes"].clear()
+        gc.collect()
+    if final and _HIST.get("weak"):
+        for ref in _HIST["weak"]:
+            cls = ref()
+            if cls is not None:
+                try:
+                    cls.__bases__ = (_Retired,)
+                except TypeError:
+                    pass
+        _HIST["weak"] = []
+
+
+def verdict_view(res):
+    """verdict and result only: which exception kind a failing call raises may depend on the (hash) order of validator types"""
+    return [r if r.get("r") == "ok" else {"r": "not-ok", **({"input_altered": True} if r.get("input_altered") else {})} for r in res]
+
+
+# ----------------------------------------------------------------------------- steps that change shared state
+
+_MUTATORS = {"append", "extend", "insert", "pop", "popitem", "clear", "update", "setdefault", "remove", "discard", "add", "sort", "reverse",
+             "appendleft", "popleft", "move_to_end", "__setitem__", "__setattr__", "__delitem__", "__delattr__"}
+_STORE_LINES = None
+
+
+def _may_store(node, shared_names, fresh=None):
+    for sub in ast.walk(node):
+        if isinstance(sub, (ast.Attribute, ast.Subscript)) and isinstance(sub.ctx, (ast.Store, ast.Del)):
+            if fresh and isinstance(sub, ast.Attribute) and isinstance(sub.value, ast.Name) and sub.value.id == fresh:
+                continue        # a constructor filling in the object it is constructing: nobody else can see it yet
+            return True
+        if isinstance(sub, ast.Name) and isinstance(sub.ctx, (ast.Store, ast.Del)) and sub.id in shared_names:
+            return True
+        if isinstance(sub, ast.Call):
+            f = sub.func
+            if isinstance(f, ast.Attribute) and f.attr in _MUTATORS:
+                return True
+            if isinstance(f, ast.Name) and f.id in ("setattr", "delattr"):
+                return True
+    return False
+
+
+def _store_lines_of(tree):
+    """line numbers of statements (or headers of compound statements) that can store into an object that existed before:
+    attribute / item assignment and deletion (except `self.x = ...` in a constructor), assignment to a global or nonlocal name,
+    a mutating container method, `with`"""
+    lines = set()
+
+    def visit(body, shared, fresh=None):
+        for st in body:
+            if isinstance(st, (ast.FunctionDef, ast.AsyncFunctionDef)):
+                names = set()
+                for sub in ast.walk(st):
+                    if isinstance(sub, (ast.Global, ast.Nonlocal)):
+                        names.update(sub.names)
+                ctor = st.name in ("__init__", "__new__", "__post_init__") and st.args.args
+                visit(st.body, names, st.args.args[0].arg if ctor else None)
+                continue
+            if isinstance(st, ast.ClassDef):
+                visit(st.body, set())
+                continue
+            blocks = [getattr(st, f) for f in ("body", "orelse", "finalbody") if isinstance(getattr(st, f, None), list)]
+            for h in getattr(st, "handlers", []):
+                blocks.append(h.body)
+            if blocks:
+                first = min((b[0].lineno for b in blocks if b), default=st.lineno + 1)
+                parts = [getattr(st, f) for f in ("test", "iter", "target") if getattr(st, f, None) is not None]
+                parts += [x for item in getattr(st, "items", []) for x in (item.context_expr, item.optional_vars) if x is not None]
+                if isinstance(st, (ast.With, ast.AsyncWith)) or any(_may_store(x, shared, fresh) for x in parts):
+                    lines.update(range(st.lineno, max(st.lineno + 1, first)))
+                for b in blocks:
+                    visit(b, shared, fresh)
+            elif _may_store(st, shared, fresh):
+                lines.update(range(st.lineno, (st.end_lineno or st.lineno) + 1))
+    visit(tree.body, set())
+    return lines
+
+
+def store_lines():
+    global _STORE_LINES
+    if _STORE_LINES is None:
+        table = {}
+        for root, _dirs, files in os.walk(sched.LIB_DIR):
+            for name in files:
+                if name.endswith(".py"):
+                    path = os.path.join(root, name)
+                    try:
+                        table[path] = _store_lines_of(ast.parse(open(path, encoding="utf8").read()))
+                    except (SyntaxError, OSError, UnicodeDecodeError):
+                        table[path] = set()
+        _STORE_LINES = table
+    return _STORE_LINES
+
+
+_MOD_NAMES = {}
+_MOD_LIST = [-1, []]
+
+
+def module_globals():
+    """the library's module-level variables that hold data (scalars, containers, instances of the library's own classes)"""
+    vals = []
+    if _MOD_LIST[0] != len(sys.modules):
+        _MOD_LIST[:] = [len(sys.modules), sorted(n for n in list(sys.modules) if n == "statham" or n.startswith("statham."))]
+    for modname in _MOD_LIST[1]:
+        mod = sys.modules.get(modname)
+        if mod is None:
+            continue
+        ns = vars(mod)
+        cached = _MOD_NAMES.get(modname)
+        if cached is None or cached[0] != len(ns):
+            names = []
+            for k, v in ns.items():
+                if k.startswith("__") or isinstance(v, (types.ModuleType, types.FunctionType, types.BuiltinFunctionType, type)):
+                    continue
+                if v is None or isinstance(v, (bool, int, float, str, bytes, list, dict, set, tuple, bytearray)) \
+                        or (getattr(type(v), "__module__", "") or "").startswith("statham"):
+                    names.append(k)
+            cached = (len(ns), sorted(names))
+            _MOD_NAMES[modname] = cached
+        for k in cached[1]:
+            vals.append((modname, k))
+            vals.append(ns.get(k))
+    return statediff.snapshot(*vals, include_parent=True)
+
+
+class StateWatch:
+    """Tells, line event by line event, whether the step a thread has just completed changed state that other threads can see.
+    Snapshots are only taken when a line that can store into an existing object (store_lines) has been completed."""
+
+    def __init__(self, roots):
+        self.roots = roots
+        self.stores = store_lines()
+        self.pending = {}
+        self.last = None
+        self.checks = 0
+
+    def snap(self):
+        return (statediff.snapshot(*self.roots), module_globals())
+
+    def refresh(self):
+        self.last = self.snap()
+
+    def on_line(self, tid, frame):
+        changed = False
+        pending = self.pending.setdefault(tid, [])
+        if pending:
+            chain = set()
+            f = frame.f_back
+            while f is not None:
+                chain.add(id(f))
+                f = f.f_back
+            keep = [p for p in pending if p is not frame and id(p) in chain]
+            if len(keep) != len(pending):
+                pending[:] = keep
+                self.checks += 1
+                now = self.snap()
+                if now != self.last:
+                    changed = True
+                    self.last = now
+        lines = self.stores.get(frame.f_code.co_filename)
+        if lines and frame.f_lineno in lines:
+            pending.append(frame)
+        return changed
+
+
+def lib_tracer(on_line):
+    """like sched.make_tracer, but the callback gets the frame"""
+    def local(frame, event, arg):
+        if event == "line":
+            on_line(frame)
+        return local
+
+    def tracer(frame, event, arg):
+        if event == "call" and frame.f_code.co_filename.startswith(sched.LIB_DIR):
+            return local
+        return None
+    return tracer
+
+
+_BRACKET_LINES = None
+
+
+def bracket_lines():
+    """(file, line) pairs after which sched.bracket_points places a point: the text tests of that function, done once per file"""
+    global _BRACKET_LINES
+    if _BRACKET_LINES is None:
+        table = {}
+        for path in store_lines():
+            hits = set()
+            try:
+                for no, text in enumerate(open(path, encoding="utf8").read().splitlines(), 1):
+                    text = text.strip()
+                    if text.startswith("with ") or "catch_warnings" in text or "simplefilter" in text or "global " in text:
+                        hits.add(no)
+            except (OSError, UnicodeDecodeError):
+                pass
+            table[path] = hits
+        _BRACKET_LINES = table
+    return _BRACKET_LINES
+
+
+def watched_alone(fn, roots, watching=True, counter=None):
+    """run `fn()` alone: number of library line events, its return value, the indexes of the line events before which a step
+    that changed shared state had just been completed, the number of snapshots taken, and the points sched.bracket_points gives
+    (one traced run instead of two)"""
+    watch = StateWatch(roots) if watching else None
+    if watch:
+        watch.refresh()
+    brackets = bracket_lines()
+    n, writes, points, prev = (counter if counter is not None else [0]), [], [], [False]
+
+    def on_line(frame):
+        if watch and watch.on_line(0, frame):
+            writes.append(n[0])
+        if prev[0]:
+            points.append(n[0])
+        hits = brackets.get(frame.f_code.co_filename)
+        prev[0] = bool(hits) and frame.f_lineno in hits
+        n[0] += 1
+    old = sys.gettrace()
+    sys.settrace(lib_tracer(on_line))
+    try:
+        res = fn()
+    finally:
+        sys.settrace(old)
+    return n[0], res, writes, (watch.checks if watch else 0), points
+
+
+class WriteScheduler(sched.Scheduler):
+    """sched.Scheduler whose segments may also be (thread, ("w", m)): the thread runs until it has completed m steps that changed
+    shared state (it is suspended before the next line), or finishes.  `concrete()` gives the interleaving that actually
+    happened as plain (thread, lines) segments."""
+
+    def __init__(self, n_threads, segments, watch, wait_s=3.0):
+        self.watch = watch
+        self.wmode, self.wleft = False, 0
+        self.log = []
+        super().__init__(n_threads, segments, wait_s)
+
+    def _advance(self):
+        prev = self.turn
+        self.wmode, self.wleft = False, 0
+        while self.segments:
+            tid, k = self.segments.pop(0)
+            if tid in self.done:
+                continue
+            if isinstance(k, (list, tuple)):
+                self.turn, self.left, self.wmode, self.wleft = tid, float("inf"), True, max(1, int(k[1]))
+                self.watch.refresh()
+                break
+            if k > 0:
+                self.turn, self.left = tid, k
+                break
+        else:
+            rest = [t for t in range(self.n) if t not in self.done]
+            self.turn, self.left = (rest[0], float("inf")) if rest else (None, 0)
+        if prev is not None and self.turn != prev:
+            self.switches += 1
+        self.log.append([self.turn, 0])
+
+    def tick_frame(self, tid, frame):
+        with self.cv:
+            self._wait_turn(tid)
+            while not self.free:
+                if self.wmode:
+                    if self.watch.on_line(tid, frame):
+                        self.wleft -= 1
+                        if self.wleft <= 0:
+                            self._advance()
+                            self.cv.notify_all()
+                            self._wait_turn(tid)
+                            continue
+                    break
+                if self.left <= 0:
+                    self._advance()
+                    self.cv.notify_all()
+                    self._wait_turn(tid)
+                    continue
+                self.left -= 1
+                break
+            if self.free:
+                return
+            self.log[-1][1] += 1
+            self.events[tid] += 1
+
+    def concrete(self):
+        out = []
+        for tid, cnt in self.log:
+            if tid is None or cnt <= 0:
+                continue
+            if out and out[-1][0] == tid:
+                out[-1][1] += cnt
+            else:
+                out.append([tid, cnt])
+        return [tuple(x) for x in out]
+
+
+def run_write_scheduled(workers, segments, roots):
+    """sched.run_scheduled for schedules with ("w", m) segments"""
+    sc = WriteScheduler(len(workers), segments, StateWatch(roots))
+    results = [None] * len(workers)
+
+    def body(tid):
+        sys.settrace(lib_tracer(lambda frame: sc.tick_frame(tid, frame)))
+        try:
+            results[tid] = workers[tid]()
+        except BaseException as exc:  # noqa: BLE001
+            results[tid] = exc
+        finally:
+            sys.settrace(None)
+            sc.finish(tid)
+    threads = [threading.Thread(target=body, args=(i,), daemon=True) for i in range(len(workers))]
+    for t in threads:
+        t.start()
+    for t in threads:
+        t.join(timeout=30)
+    if any(t.is_alive() for t in threads):
+        sc.free = True
+        with sc.cv:
+            sc.cv.notify_all()
+        for t in threads:
+            t.join(timeout=5)
+        raise sched.Stuck("worker threads did not finish")
+    return results, sc
+
+
 def build_shared_wrapper():
     """one Property object placed under two different names (outside the theorem's hypothesis)"""
     p = Property(String(minLength=1))
@@ -123,9 +654,15 @@ def build_shared_wrapper():
     return Array([x, y], additionalItems=False)
 
 
-def calls_worker(tree, values):
+def calls_worker(tree, values, on_call=None):
     def work():
-        return [core.real_call(tree, v) for v in values]
+        if on_call is None:
+            return [core.real_call(tree, v) for v in values]
+        out = []
+        for i, v in enumerate(values):
+            on_call(i)
+            out.append(core.real_call(tree, v))
+        return out
     return work
 
 
@@ -136,14 +673,59 @@ def safe_dump(tree):
         return None
 
 
-def explore(builder, per_thread, out, stats, case, rng, n_sched, finding=None):
+def fresh(builder, history):
+    """a freshly built tree on which the scenario's pre-history has happened (what the previous run's history declared is dropped
+    first, so that at most one generation of declared types is alive)"""
+    cleanup_history()
+    tree = builder()
+    apply_history(history, tree)
+    return tree
+
+
+def relaxed_for(history):
+    # a Validator subclass declared by the history changes the hash order in which the library visits validator types, and the
+    # order differs from one declaration to the next: for a value failing two keywords the exception kind may then differ
+    # between two runs alone already.  Such scenarios are judged on verdict and result, as the statement says.
+    return any(op["op"] == "declare-validator" for op in history or [])
+
+
+def judge(results, alone, relaxed, stats=None):
+    """None if every thread got what it gets alone, else (what, where)"""
+    for tid, (got, want) in enumerate(zip(results, alone)):
+        if isinstance(got, BaseException):
+            return f"thread {tid} raised {type(got).__name__}: {got}", {}
+        if got == want:
+            continue
+        if relaxed:
+            if verdict_view(got) == verdict_view(want):
+                if stats is not None:
+                    stats["kind-only-difference"] = stats.get("kind-only-difference", 0) + 1
+                continue
+            i = next(i for i, (x, y) in enumerate(zip(verdict_view(got), verdict_view(want))) if x != y)
+        else:
+            i = next(i for i, (x, y) in enumerate(zip(got, want)) if x != y)
+        return (f"thread {tid}, call {i}: concurrent result {str(got[i])[:160]} differs from the result alone {str(want[i])[:160]}",
+                {"thread": tid, "call": i})
+    return None
+
+
+def explore(builder, per_thread, out, stats, case, rng, n_sched, finding=None, directed=True, n_directed=40):
     """per_thread: list of value lists.  Returns nothing; appends failures."""
-    alone, lines = [], []
+    history = case.get("history")
+    relaxed = relaxed_for(history)
+    alone, lines, writes, pts, starts = [], [], [], [], []
     for values in per_thread:
-        tree = builder()
-        n, res = sched.count_lines(calls_worker(tree, values))
+        tree = fresh(builder, history)
+        counter, begun = [0], []
+        n, res, w, checks, points = watched_alone(calls_worker(tree, values, on_call=lambda _i, c=counter, b=begun: b.append(c[0])), [tree],
+                                                  watching=directed, counter=counter)
+        if checks:
+            stats["store-line-checks"] = stats.get("store-line-checks", 0) + checks
         alone.append(res)
         lines.append(n)
+        writes.append(w)
+        pts.append(points)
+        starts.append(begun)
     if any(r["r"].startswith("exc:") for res in alone for r in res):
         stats["alone-raised"] = stats.get("alone-raised", 0) + 1
     n_a = lines[0]
@@ -158,7 +740,6 @@ def explore(builder, per_thread, out, stats, case, rng, n_sched, finding=None):
     # preemptions placed inside brackets (`with` blocks, swapped settings): thread 0 is stopped inside one, then another thread
     # is run until it is inside one of its own (or to completion), then thread 0 goes on
     if len(per_thread) > 1:
-        pts = [sched.bracket_points(calls_worker(builder(), v)) for v in per_thread]
         if pts[0]:
             stats["bracket-schedules"] = stats.get("bracket-schedules", 0) + 1
             for _ in range(min(8, 2 + len(pts[0]))):
@@ -168,7 +749,7 @@ def explore(builder, per_thread, out, stats, case, rng, n_sched, finding=None):
                 extra = rng.choice([1, 2, 3, 5, 10 ** 9])
                 schedules.append([(0, k0), (other, k1), (0, extra), (other, 10 ** 9)])
     for segs in schedules:
-        tree = builder()
+        tree = fresh(builder, history)
         before = safe_dump(tree)
         try:
             results, s = sched.run_scheduled([calls_worker(tree, v) for v in per_thread], segs)
@@ -181,27 +762,114 @@ def explore(builder, per_thread, out, stats, case, rng, n_sched, finding=None):
         out.note_case({**case, "schedule": segs}, s.switches >= 1)
         stats["switches-%d" % min(s.switches, 5)] = stats.get("switches-%d" % min(s.switches, 5), 0) + 1
         out.traces_validated += 1
-        for tid, (got, want) in enumerate(zip(results, alone)):
-            if isinstance(got, BaseException):
-                out.failures.append({"case": {**case, "schedule": segs}, "what": f"thread {tid} raised {type(got).__name__}: {got}", "finding": finding})
-                break
-            if got != want:
-                i = next(i for i, (a, b) in enumerate(zip(got, want)) if a != b)
-                out.failures.append({"case": {**case, "schedule": segs, "thread": tid, "call": i},
-                                     "what": f"thread {tid}, call {i}: concurrent result {str(got[i])[:160]} differs from the result alone {str(want[i])[:160]}", "finding": finding})
-                break
-        else:
-            after = safe_dump(tree)
-            if before != after:
-                out.failures.append({"case": {**case, "schedule": segs}, "what": "the element tree differs after the concurrent calls", "finding": finding})
+        bad = judge(results, alone, relaxed, stats)
+        if bad:
+            out.failures.append({"case": {**case, "schedule": segs, **bad[1]}, "what": bad[0], "finding": finding})
+        elif before != safe_dump(tree):
+            out.failures.append({"case": {**case, "schedule": segs}, "what": "the element tree differs after the concurrent calls", "finding": finding})
+    # state-directed schedules: a thread is suspended right after a step that changed state the others can see
+    if directed and len(per_thread) > 1 and any(writes):
+        stats["scenarios-with-shared-writes"] = stats.get("scenarios-with-shared-writes", 0) + 1
+        directed_schedules(builder, per_thread, out, stats, case, rng, n_directed, finding, alone, lines, writes, starts=starts)
+
+
+def directed_plans(rng, n_threads, writes, lines=None, starts=None, alone=None):
+    """Plans over ("w", j) = until the thread's j-th state-changing step and ("frac", f) = f of the lines the thread runs alone:
+    A stops after its j-th write and B runs; B stops somewhere, A runs to its j-th write, B goes on; A stops after its j-th
+    write, B runs to somewhere, A runs to its m-th next write, B goes on.  "Somewhere" is inside one of B's calls, more often
+    than not one that is rejected alone (a check that gets lost shows there)."""
+    big, plans = 10 ** 9, []
+
+    def somewhere(b):
+        if not (lines and starts and alone and starts[b]):
+            return round(rng.random(), 6)
+        calls = list(range(len(starts[b])))
+        rejected = [c for c in calls if c < len(alone[b]) and alone[b][c].get("r") != "ok"]
+        c = rng.choice(rejected) if rejected and rng.random() < 0.6 else rng.choice(calls)
+        lo = starts[b][c]
+        hi = starts[b][c + 1] if c + 1 < len(starts[b]) else lines[b]
+        return round(rng.randint(lo + 1, max(lo + 1, hi)) / max(1, lines[b]), 6)
+    for a in [t for t, w in enumerate(writes) if w]:
+        others = [t for t in range(n_threads) if t != a]
+        for j in range(1, min(len(writes[a]), 3) + 1):
+            plans.append([(a, ("w", j)), (rng.choice(others), big), (a, big)])
+            for _ in range(3):
+                b = rng.choice(others)
+                plans.append([(b, ("frac", somewhere(b))), (a, ("w", j)), (b, big)])
+                for m in (1, 2, 3):
+                    plans.append([(a, ("w", j)), (b, ("frac", somewhere(b))), (a, ("w", m)), (b, big)])
+    rng.shuffle(plans)
+    return plans
+
+
+def resolve_plan(plan, lines):
+    return [(t, max(1, int(k[1] * lines[t]))) if isinstance(k, (list, tuple)) and k[0] == "frac" else (t, tuple(k) if isinstance(k, list) else k)
+            for t, k in plan]
+
+
+def run_plan(builder, history, per_thread, plan, lines):
+    """one run of a plan on a fresh tree: (results, scheduler, tree changed?) or None when the run had to be abandoned"""
+    tree = fresh(builder, history)
+    before = safe_dump(tree)
+    try:
+        results, s = run_write_scheduled([calls_worker(tree, v) for v in per_thread], resolve_plan(plan, lines), [tree])
+    except sched.Stuck:
+        return None
+    if s.free:
+        return None
+    return results, s, before != safe_dump(tree)
+
+
+def directed_schedules(builder, per_thread, out, stats, case, rng, n_directed, finding, alone, lines, writes, plans=None, starts=None):
+    history = case.get("history")
+    relaxed = relaxed_for(history)
+    spent = 0
+    for plan in (plans if plans is not None else directed_plans(rng, len(per_thread), writes, lines, starts, alone))[:n_directed]:
+        if spent > 400 * n_directed:        # snapshots are the cost of these runs: bounded per scenario
+            stats["directed-budget-exhausted"] = stats.get("directed-budget-exhausted", 0) + 1
+            break
+        got = run_plan(builder, history, per_thread, plan, lines)
+        if got is None:
+            stats["schedule-timed-out"] = stats.get("schedule-timed-out", 0) + 1
+            continue
+        results, s, changed = got
+        segs = s.concrete()
+        spent += s.watch.checks
+        out.note_case({**case, "schedule": segs}, s.switches >= 1)
+        stats["write-directed-schedules"] = stats.get("write-directed-schedules", 0) + 1
+        out.traces_validated += 1
+        if judge(results, alone, relaxed, stats) is None and not changed:
+            continue
+        # it must happen again: first the interleaving as plain (thread, lines) segments under the plain scheduler; if the library
+        # keeps state from run to run (line counts drift) the same plan once more
+        tree = fresh(builder, history)
+        before = safe_dump(tree)
+        try:
+            results, s2 = sched.run_scheduled([calls_worker(tree, v) for v in per_thread], segs)
+            again = None if s2.free else (results, s2, before != safe_dump(tree))
+        except sched.Stuck:
+            again = None
+        if again is None or (judge(again[0], alone, relaxed) is None and not again[2]):
+            again = run_plan(builder, history, per_thread, plan, lines)
+            if again is not None:
+                segs = again[1].concrete()
+        bad = None if again is None else judge(again[0], alone, relaxed)
+        if bad or (again is not None and again[2]):
+            what = bad[0] if bad else "the element tree differs after the concurrent calls"
+            out.failures.append({"case": {**case, "schedule": segs, "plan": plan, **(bad[1] if bad else {})},
+                                 "what": what + " (schedule aimed at a step that changes shared state)", "finding": finding})
+            return
+        stats["directed-not-reproduced"] = stats.get("directed-not-reproduced", 0) + 1
 
 
 def stress(builder, per_thread, out, stats, case, finding=None):
+    history = case.get("history")
+    view = verdict_view if relaxed_for(history) else (lambda res: res)
     alone = []
     for values in per_thread:
-        tree = builder()
+        tree = fresh(builder, history)
         alone.append([core.real_call(tree, v) for v in values])
-    tree = builder()
+    tree = fresh(builder, history)
     before = safe_dump(tree)
     results = [None] * len(per_thread)
     barrier = threading.Barrier(len(per_thread))
@@ -211,7 +879,7 @@ def stress(builder, per_thread, out, stats, case, finding=None):
         out_i = []
         for _ in range(20):
             out_i = [core.real_call(tree, v) for v in per_thread[i]]
-            if out_i != alone[i]:
+            if view(out_i) != view(alone[i]):
                 break
         results[i] = out_i
     old = sys.getswitchinterval()
@@ -227,7 +895,7 @@ def stress(builder, per_thread, out, stats, case, finding=None):
     out.note_case({**case, "schedule": "free-running"}, True)
     stats["stress"] = stats.get("stress", 0) + 1
     for i, (got, want) in enumerate(zip(results, alone)):
-        if got != want:
+        if got is None or view(got) != view(want):
             out.failures.append({"case": {**case, "schedule": "free-running", "thread": i}, "what": f"free-running thread {i}: result differs from the result alone", "finding": finding})
             return
     if safe_dump(tree) != before:
@@ -247,14 +915,19 @@ def run(ctx, scale=1.0):
     out.rule = ("scenarios: a tree (DSL dump depth <= 3 / model class / parsed schema / focused families: first-use defaults, additional+pattern properties "
                 "with nested validation, tuple items) and 2-3 threads with 1-3 different values each; per scenario 10+ schedules: the first thread is "
                 "preempted after k library lines (k = 1, n/2, n-1 and random), the others run, it resumes; plus multi-preemption schedules with random "
-                "slices; plus a free-running 2-6 thread stress with a 1 µs switch interval; a case is one scheduled execution; non-trivial = at least one "
+                "slices; plus a free-running 2-6 thread stress with a 1 µs switch interval; further families: numeric keywords over the magnitude "
+                "ladder, `contains` scans with different answers, models with array-valued declared properties; about a third of the scenarios "
+                "carry a pre-history (sequential warm-up calls, a Validator subclass declared, a format checker registered) applied before every "
+                "run alone and every concurrent run; when a thread's run alone contains steps that change shared state (tree + library module "
+                "variables, snapshots around storing lines) up to 40 schedules suspend a thread right after its j-th such step (j <= 3) while "
+                "another thread is inside a call; a case is one scheduled execution; non-trivial = at least one "
                 "context switch happened while a call was in flight; distinct by SHA-256")
     stats = {}
     n_scen = int(N_SCEN[ctx["tier"]] * scale)
     n_sched = N_SCHED[ctx["tier"]]
     vg, dg, sg = ValueGen(rng), dsl.DumpGen(rng), SchemaGen(rng, titled=True)
     for i in range(n_scen):
-        fam = ["dump", "class", "defaults", "additional", "items", "parsed", "defaults", "additional", "deep", "formats"][i % 10]
+        fam = FAMILIES[i % len(FAMILIES)]
         stats["family-" + fam] = stats.get("family-" + fam, 0) + 1
         n_threads = rng.choice([2, 2, 3])
         if fam == "defaults":
@@ -267,6 +940,12 @@ def run(ctx, scale=1.0):
             dump, vals = fam_deep(rng)
         elif fam == "formats":
             dump, vals = fam_formats(rng)
+        elif fam == "numeric":
+            dump, vals = fam_numeric(rng)
+        elif fam == "contains":
+            dump, vals = fam_contains(rng)
+        elif fam == "model-arrays":
+            dump, vals = fam_model_arrays(rng)
         elif fam == "parsed":
             schema = sg.schema(3)
             kind, el = core.real_parse(schema)
@@ -296,15 +975,28 @@ def run(ctx, scale=1.0):
             stats["unbuildable"] = stats.get("unbuildable", 0) + 1
             continue
         case = {"family": fam, "tree": dump, "threads": enc_threads}
+        if fam != "deep" and rng.random() < 0.35:
+            try:
+                case["history"] = gen_history(rng, [v for p in per_thread for v in p])
+            except Exception:  # noqa: BLE001
+                pass
+        for op in case.get("history", []):
+            stats["history-" + op["op"]] = stats.get("history-" + op["op"], 0) + 1
         builder = (lambda d=dump: dsl.build(d))
-        explore(builder, per_thread, out, stats, case, rng, n_sched)
-        if i % 4 == 0:
-            stress(builder, per_thread + per_thread, out, stats, case)
+        try:
+            explore(builder, per_thread, out, stats, case, rng, n_sched, directed=fam != "deep", n_directed=N_DIRECTED[ctx["tier"]])
+            if i % 4 == 0:
+                stress(builder, per_thread + per_thread, out, stats, case)
+        finally:
+            cleanup_history(final=True)
+        if any(f.get("finding") is None for f in out.failures):
+            stats["stopped-at-first-failing-scenario"] = i + 1      # a counterexample is in hand: the verdict of the run is settled
+            break
     # outside the hypothesis: one Property object under two names
     for _ in range(2 if ctx["tier"] == "quick" else 20):
         per_thread = [[["x", {}]], [[{}, "y"]]] if False else [[[{"a": "x"}, {}]], [[{}, {"b": "y"}]]]
         explore(build_shared_wrapper, per_thread, out, stats, {"family": "shared-wrapper", "threads": [[enc(v) for v in p] for p in per_thread]}, rng, n_sched,
-                finding="C14-shared-property-wrapper")
+                finding="C14-shared-property-wrapper", directed=False)
         stats["family-shared-wrapper"] = stats.get("family-shared-wrapper", 0) + 1
     out.stats = stats
     return out
@@ -320,20 +1012,37 @@ def search(ctx, reason):
 
 def _replay_case(case):
     out, stats = Outcome(), {}
-    per_thread = [[dsl.dec_val(v) if not (isinstance(v, dict) and "np" in v) else core.NP for v in p] for p in case["threads"]]
+    per_thread = [[dec_arg(v) for v in p] for p in case["threads"]]
     builder = build_shared_wrapper if case.get("family") == "shared-wrapper" else (lambda: dsl.build(case["tree"]))
-    rng = random.Random(0)
-    if case.get("schedule") == "free-running":
-        stress(builder, per_thread, out, stats, case)
+    history = case.get("history")
+    try:
+        if case.get("schedule") == "free-running":
+            stress(builder, per_thread, out, stats, case)
+            return bool(out.failures)
+        # run exactly the recorded schedule (after the recorded pre-history, as every run alone)
+        alone = [calls_worker(fresh(builder, history), v)() for v in per_thread]
+        tree = fresh(builder, history)
+        results, s = sched.run_scheduled([calls_worker(tree, v) for v in per_thread], [tuple(x) for x in case["schedule"]])
+        if judge(results, alone, relaxed_for(history)) is not None:
+            return True
+        if not case.get("plan"):
+            return False
+        # the schedule was aimed at the steps that change shared state: where those are, in lines, depends on what the library
+        # has kept from earlier runs; so the plan itself is run again, then the plans of its family on this very scenario
+        lines, writes, starts = [], [], []
+        for v in per_thread:
+            tree = fresh(builder, history)
+            counter, begun = [0], []
+            n, _res, w, _checks, _points = watched_alone(calls_worker(tree, v, on_call=lambda _i, c=counter, b=begun: b.append(c[0])), [tree], counter=counter)
+            lines.append(n)
+            writes.append(w)
+            starts.append(begun)
+        plans = [case["plan"]] * 3 + directed_plans(random.Random(0), len(per_thread), [w or [0] for w in writes], lines, starts, alone)
+        directed_schedules(builder, per_thread, out, stats, {k: v for k, v in case.items() if k not in ("schedule", "plan", "thread", "call")},
+                           random.Random(0), 120, None, alone, lines, writes, plans=plans)
         return bool(out.failures)
-    # run exactly the recorded schedule
-    alone = []
-    for values in per_thread:
-        alone.append([core.real_call(builder(), v) if False else None for v in values])
-    alone = [calls_worker(builder(), v)() for v in per_thread]
-    tree = builder()
-    results, s = sched.run_scheduled([calls_worker(tree, v) for v in per_thread], [tuple(x) for x in case["schedule"]])
-    return any(isinstance(g, BaseException) or g != w for g, w in zip(results, alone))
+    finally:
+        cleanup_history(final=True)
 
 
 def replay_finding(finding):
@@ -343,7 +1052,7 @@ def replay_finding(finding):
         return True
     out, stats = Outcome(), {}
     per_thread = [[dsl.dec_val(v) for v in p] for p in w["threads"]]
-    explore(build_shared_wrapper, per_thread, out, stats, {"family": "shared-wrapper", "threads": w["threads"]}, random.Random(1), 40, finding=finding["id"])
+    explore(build_shared_wrapper, per_thread, out, stats, {"family": "shared-wrapper", "threads": w["threads"]}, random.Random(1), 40, finding=finding["id"], directed=False)
     return bool(out.failures)
 
 
